@@ -34,7 +34,39 @@ struct Leaf {
     comment: Option<&'static str>,
 }
 
+/// splitmix64 step: deterministic expansion of a drawn seed (the seed is a choice, so the case
+/// stays a pure function of the choice sequence).
+fn mix(state: &mut u64) -> u64 {
+    *state = state.wrapping_add(0x9E37_79B9_7F4A_7C15);
+    let mut z = *state;
+    z = (z ^ (z >> 30)).wrapping_mul(0xBF58_476D_1CE4_E5B9);
+    z = (z ^ (z >> 27)).wrapping_mul(0x94D0_49BB_1331_11EB);
+    z ^ (z >> 31)
+}
+
+/// A leaf with many ranges (20-140, bracketing the sizes at which sorting routines switch
+/// strategy): starts on a grid so that several ranges share a start, lengths short enough to
+/// leave holes, some empty or inverted.
+fn gen_large_leaf(ch: &mut Choices) -> Leaf {
+    let n = [20u32, 31, 32, 33, 34, 40, 64, 65, 100, 140][ch.draw(10) as usize] + ch.draw(3);
+    let grid = ch.pick(&[10u32, 40, 5, 1, 60]);
+    let len_max = ch.pick(&[20u32, 5, 60, 100, 300]);
+    let mut state = u64::from(ch.raw()) << 16 | u64::from(ch.raw());
+    let mut ranges = Vec::new();
+    for _ in 0..n {
+        let a = (mix(&mut state) % u64::from(1440 / grid + 1)) as u32 * grid;
+        let len = (mix(&mut state) % u64::from(len_max + 1)) as u32;
+        let b = if mix(&mut state) % 20 == 0 { a.saturating_sub(len) } else { (a + len).min(1440) };
+        ranges.push((a.min(1440), b));
+    }
+    let kind = ch.pick(&[RuleKind::Open, RuleKind::Closed, RuleKind::Unknown]);
+    Leaf { ranges, kind, comment: None }
+}
+
 fn gen_leaf(ch: &mut Choices) -> Leaf {
+    if ch.chance(4) {
+        return gen_large_leaf(ch);
+    }
     let n = ch.weighted(&[5, 30, 30, 15, 10, 5, 5]);
     let mut ranges = Vec::new();
     for _ in 0..n {
@@ -179,6 +211,9 @@ fn algebra(ch: &mut Choices, case: &mut Case) -> Result<(), String> {
             if l.ranges.iter().any(|(a, b)| a > b) {
                 case.label("inverted_input");
             }
+            if l.ranges.len() > 32 {
+                case.label("leaf_with_more_than_32_ranges");
+            }
             built.push((s, m, d));
         }
         let (mut gs, mut gm, mut gd) = built.pop().unwrap();
@@ -207,10 +242,10 @@ pub fn property() -> Property {
         id: "C14",
         subs: vec![SubCheck {
             name: "algebra",
-            rule: "trees of 1-8 additions over from_ranges leaves (0-6 ranges each on an hour/quarter/minute grid: overlapping, nested, adjacent, empty, inverted, identical starts; three kinds; optional comment), left- and right-nested, every intermediate value checked against a per-minute last-writer-wins model: stored ranges (hook H2) disjoint/increasing/non-empty/within the day, painted minutes = model, is_empty, iteration tiles 00:00-24:00 gap-free with closed holes and differing neighbours; non-trivial = some leaf had overlapping input ranges and some iterated value had >= 4 periods",
+            rule: "trees of 1-8 additions over from_ranges leaves (0-6 ranges each on an hour/quarter/minute grid, 4 % of the leaves with 20-142 ranges expanded from a drawn seed: overlapping, nested, adjacent, empty, inverted, identical starts; three kinds; optional comment), left- and right-nested, every intermediate value checked against a per-minute last-writer-wins model: stored ranges (hook H2) disjoint/increasing/non-empty/within the day, painted minutes = model, is_empty, iteration tiles 00:00-24:00 gap-free with closed holes and differing neighbours; non-trivial = some leaf had overlapping input ranges and some iterated value had >= 4 periods",
             f: algebra,
             text_f: None,
-            cases_quick: 50_000,
+            cases_quick: 200_000,
             cases_thorough: 1_500_000,
             max_choices: 400,
         }],
